@@ -11,7 +11,23 @@ relative to the TIMESTAMP replica A carried before the round (T-1 s, T, T+0.5 s,
 followed by one update of each replica at a harness-owned clock value.  All of that in
 the local time zones UTC, XXX-3 (east) and XXX5 (west), with a flat and a nested
 (sub-directory Manifest) layout and with the scan starting on a whole second or at
-T+0.7 s.
+T+0.7 s.  In the nested layout the sub-Manifest file is a file of the tree like any other
+and three more operations edit it out of band in ways an update has no reason to undo:
+append a DIST line, append an IGNORE line for a name that does not exist (both change the
+size), and - once the DIST line is there - flip one digit of its checksum (same size);
+what must follow is that the parent's MANIFEST entry is re-hashed.
+
+Clock schedules.  'mono': round r starts at T0 + 100 r.  'back1': the clock is stepped
+back by 3600 s between create and round 1 (round r at T0 - 3600 + 100 r), 'back2': between
+round 1 and round 2.  In a stepped-back round the previous TIMESTAMP lies in the future of
+the fake clock (Manifest made on a host with a fast clock, or the clock was corrected); if
+the round changes anything the Manifest is rewritten and the TIMESTAMP it then carries
+must not be later than the scan start.  The history continues at later instants that are
+still before the stale future TIMESTAMP; mtime classes are always taken relative to the
+*model* TIMESTAMP (what the Manifest carries, except that after a reported
+timestamp_later_than_scan_start it is the scan start of that round, i.e. what an update
+that honours the statement's second sentence wrote), so that a file modified after the
+stepped-back update, with mtime before the stale TIMESTAMP, is demanded to be picked up.
 
 Family 'inflight' (the *schedule* quantifier).  While an update (incremental or full) is
 running, right after the k-th per-file call of ``update_entry_for_path`` has returned
@@ -24,9 +40,12 @@ update must have nothing left to correct.
 
 Oracle (three-valued).  MUST: after a round in which every content-modified file has a
 changed size or an mtime strictly later than the previous TIMESTAMP, the reference-parsed
-entries of *all* Manifest files of A and B are equal (TIMESTAMP lines excluded), and A
-verifies.  ALWAYS: a TIMESTAMP found after an update is not later than the fake clock
-value at which the scan started; B verifies (harness sanity).  DONT_CARE: same-size
+entries of *all* Manifest files of A and B are equal (TIMESTAMP lines excluded), every
+MANIFEST entry of A matches size and SHA1 of the sub-Manifest file it names (reference
+hash), and A verifies.  ALWAYS: a TIMESTAMP found after an update that wrote the top-level
+Manifest is not later than the fake clock value at which the scan started (an update that
+finds nothing to record does not write and keeps the old TIMESTAMP, even a future one -
+that TIMESTAMP was not "written by" it); B verifies (harness sanity).  DONT_CARE: same-size
 modification with mtime <= previous TIMESTAMP (premise false); an *added* file whose mtime
 is not later than the TIMESTAMP (is an added file a "modified file"? two readings); an
 in-flight same-size edit whose mtime equals the whole second of the scan start.
@@ -56,12 +75,17 @@ from gverif.treemodel import snapshot, wipe
 
 PID = 'C11'
 LEVEL = 'model_checking'
-RULE = ('hist: {UTC, XXX-3, XXX5} x {flat, nested layout} x {scan start on the second, +0.7 s} x every history '
-        'of R rounds (R=2 quick; thorough: R=3 with whole-second clock, R=2 with +0.7 s) of one applicable '
+RULE = ('hist: {UTC, XXX-3, XXX5} x {flat, nested layout} x {(clock mono, scan start on the second), (mono, +0.7 s), '
+        '(back1, on the second), (back2, on the second)} x every history '
+        'of R rounds (R=2 quick; thorough: R=3 with whole-second scan start, R=2 with +0.7 s) of one applicable '
         'operation {modify_same_size, modify_other_size, touch, replace_equal} x slot x mtime class {T-1, T, '
-        'T+0.5, T+1 relative to A\'s previous TIMESTAMP} | add x absent slot x mtime class | delete x slot, '
+        'T+0.5, T+1 relative to the previous (model) TIMESTAMP} | add x absent slot x mtime class | delete x slot '
+        '| nested layout only: {append DIST line, append IGNORE line (each once), flip a digit of the DIST '
+        'checksum (when present)} on the sub-Manifest file x mtime class, '
         'each followed by `update --incremental` on replica A and `update` on replica B at fake instant '
-        'T0+100*round; a state is a (configuration, history prefix); non-trivial = the round was judged MUST. '
+        'T0+100*round (mono), T0-3600+100*round (back1: clock stepped back 3600 s before round 1; back2: the same '
+        'from round 2 on, round 1 at T0+100); a state is a (configuration, history prefix); non-trivial = the '
+        'round was judged MUST. '
         'inflight: the same configurations x running update {incremental, full} x k in 0..K (K = number of '
         'update_entry_for_path calls that carry the last_mtime keyword, i.e. the per-file calls of the walk) x '
         'file slot j x {same size, other size} x edit instant {scan start +0, +0.5 s, +2 s} x {no other pending '
@@ -71,7 +95,16 @@ ASSUMPTIONS = [
     'datetime.utcnow()/now() return the harness instant; it never advances on its own (only the in-flight hook '
     'and the harness move it); every update must consult it exactly once (checked)',
     'file mtimes are set explicitly (os.utime ns=) after every write; a Manifest that an update (re)wrote gets '
-    'mtime = scan start + 1 s',
+    'mtime = scan start + 1 s; "an update wrote the Manifest" is observed as changed bytes or a changed '
+    'st_mtime_ns (gemato writes in place, which stamps the real wall clock, decades away from the fake one)',
+    'in a stepped-back round the files keep mtimes that lie in the future of the fake clock (gemato never '
+    'compares an mtime with the clock, only with the TIMESTAMP); the step is 3600 s, larger than the whole '
+    'history, so every later round is still before the stale TIMESTAMP',
+    'mtime classes are relative to the model TIMESTAMP, which equals the TIMESTAMP in replica A\'s Manifest '
+    'unless a timestamp_later_than_scan_start violation has been reported earlier in the same history '
+    '(checked: a difference without such a report is a harness error)',
+    'sub-Manifest edits: the DIST / IGNORE lines name nothing that exists; applied identically to both '
+    'replicas; the appended lines are never duplicated (duplicate entries are another property)',
     'os.scandir order is pinned to sorted order so that "the k-th call" is reproducible',
     'create and round 1 of every history, the two updates under test of every in-flight case and every replay go '
     'through the unmodified gemato.cli.main (gem.cli); rounds >= 2 of the exploration (and create / comparison '
@@ -79,12 +112,15 @@ ASSUMPTIONS = [
     'once per process instead of once per call (fresh command object per call); a behavioural difference between '
     'the two would surface as a violation that does not reproduce on stand-alone replay',
     'entries are compared per Manifest file as multisets (line order is not demanded); the size/digest of a '
-    'MANIFEST entry for a sub-Manifest that is itself compared is left to `gemato verify` on replica A',
+    'MANIFEST entry for a sub-Manifest that is itself compared is not compared between A and B (line order may '
+    'differ) but against the reference SHA1 / size of the file it names in the same replica: stale in A and current '
+    'in B counts as a difference; `gemato verify` on replica A checks it once more',
     'after a DONT_CARE round or a violation replica A is re-synchronised with one full update at the same fake '
     'instant and the history continues (the explored space does not depend on the verdicts)',
     'operations with mtime classes only for files that exist / slots that are absent; directories are never '
     'removed; only the default profile, SHA1, no compression, no signing; TIMESTAMP refresh without -t',
     'touch / replace_equal / delete rounds modify no content, so equality is demanded for every mtime class',
+    'the in-flight family runs with the monotonic clock only and does not edit Manifest files',
 ]
 
 T0 = 1600000000                  # 2020-09-13T12:26:40Z, creation instant (whole seconds)
@@ -98,6 +134,14 @@ MC_NS = {'older': -10 ** 9, 'equal': 0, 'frac': 5 * 10 ** 8, 'newer': 10 ** 9}
 EXISTING_OPS = ('modify_same_size', 'modify_other_size', 'touch', 'replace_equal')
 DELTAS = (0, 500000, 2000000)    # in-flight edit instant, microseconds after the scan start
 HASH = 'SHA1'
+CLOCKS = ('mono', 'back1', 'back2')
+BACK = 3600                      # seconds by which the fake clock is stepped back
+CLOCK_FRACS = (('mono', 0), ('mono', 700000), ('back1', 0), ('back2', 0))
+MANI_APPEND_OPS = ('mani_append_dist', 'mani_append_ignore')
+MANI_OPS = MANI_APPEND_OPS + ('mani_edit_dist',)
+DIST_PREFIX = b'DIST c11-dist-1.tar.gz '
+DIST_LINE = DIST_PREFIX + b'4 SHA1 ' + b'0' * 40 + b'\n'
+IGNORE_LINE = b'IGNORE c11-not-there\n'
 
 _FILES = ['a', 'b c', 'ü', 'q.x', 'ab']
 _DIRS = ['d', 'e f', 'dé', 'sub']
@@ -105,6 +149,15 @@ _DIRS = ['d', 'e f', 'dé', 'sub']
 
 class HarnessError(Exception):
     pass
+
+
+def round_start_s(clock, rnd):
+    """Whole-second part of the fake instant at which the updates of round rnd start
+    (round 0 = create)."""
+    s = T0 + STEP * rnd
+    if (clock == 'back1' and rnd >= 1) or (clock == 'back2' and rnd >= 2):
+        s -= BACK
+    return s
 
 
 # ------------------------------------------------------------------ clock and TZ seams
@@ -274,7 +327,8 @@ _PARSED = {}
 
 def parsed(manis):
     """-> ({manifest path: sorted entries without TIMESTAMP}, TIMESTAMP epoch seconds,
-    {manifest path: entries in file order}); memoised on the bytes (results are not mutated)"""
+    {manifest path: entries in file order}, [sub-Manifest paths whose MANIFEST entry does not match
+    size / SHA1 of the file]); memoised on the bytes (results are not mutated)"""
     key = tuple(sorted(manis.items()))
     r = _PARSED.get(key)
     if r is None:
@@ -285,7 +339,7 @@ def parsed(manis):
 
 
 def _parse_manifests(manis):
-    out, raw, stamps = {}, {}, []
+    out, raw, stamps, stale = {}, {}, [], []
     for p, b in manis.items():
         st, ents = rm.parse(b.decode('utf8'))
         if st != 'ok':
@@ -297,13 +351,16 @@ def _parse_manifests(manis):
                     stamps.append(e[1])
                 continue
             if e[0] == 'MANIFEST' and os.path.normpath(os.path.join(os.path.dirname(p), e[1])) in manis:
+                sub = os.path.normpath(os.path.join(os.path.dirname(p), e[1]))
+                if e[2] != len(manis[sub]) or dict(e[3]).get(HASH, '').lower() != rm.hexdigest(HASH, manis[sub]):
+                    stale.append(sub)
                 e = ('MANIFEST', e[1], None, ())
             body.append(e)
         raw[p] = body
         out[p] = sorted(body, key=repr)
     if len(stamps) != 1:
         raise HarnessError(f'top-level Manifest carries {len(stamps)} TIMESTAMP entries')
-    return out, ts_epoch(stamps[0]), raw
+    return out, ts_epoch(stamps[0]), raw, sorted(stale)
 
 
 def diff_paths(ea, eb):
@@ -378,6 +435,10 @@ class Run:
         self.case = None
         self.hoist_from_round = hoist_from_round     # None: always the unmodified gemato.cli.main
         self.rnd = 0
+        self.last = None          # facts about the most recent successful update()
+        # history state (saved / restored with the replica snapshots): model TIMESTAMP, whether it differs
+        # from the Manifest's, the future TIMESTAMP that a stepped-back round replaced (None: none yet)
+        self.h = {'ts_model': None, 'diverged': False, 'stale': None}
 
     def violation(self, sig, message):
         sig = dict(sig, tz=self.cfg['tz'])
@@ -401,6 +462,7 @@ class Run:
         fake instant start_us; checks the TIMESTAMP; re-stamps rewritten Manifests.
         -> (ok, observation)"""
         before = read_manifests(d)
+        mt_before = {p: os.stat(os.path.join(d, p)).st_mtime_ns for p in before}
         ts_before = parsed(before)[1] if before.get('Manifest') else None
         argv = {'create': ['create', '-t'], 'incr': ['update', '--incremental'], 'full': ['update']}[mode]
         CLOCK.us = start_us
@@ -418,15 +480,31 @@ class Run:
         if CLOCK.calls != calls0 + 1:
             raise HarnessError(f'clock seam: {mode} consulted the fake clock {CLOCK.calls - calls0} times')
         after = read_manifests(d)
+        written = set()
         for p, b in after.items():
-            if before.get(p) != b:
+            if before.get(p) != b or mt_before.get(p) != os.stat(os.path.join(d, p)).st_mtime_ns:
+                if before.get(p) == b:
+                    self.stats.counters['manifest_rewritten_with_identical_bytes'] += 1
+                written.add(p)
                 set_mtime_ns(os.path.join(d, p), (start_us + 10 ** 6) * 1000)
         ts_after = parsed(after)[1]
-        if ts_after * 10 ** 6 > start_us:
+        start_s = start_us // 10 ** 6
+        top_written = 'Manifest' in written
+        stepback = ts_before is not None and ts_before > start_s     # the fake clock is before the previous TIMESTAMP
+        if stepback:
+            self.stats.counters['update_with_clock_before_previous_timestamp:'
+                                + ('top_manifest_written' if top_written else 'nothing_written')] += 1
+        ts_model = ts_after
+        if ts_after * 10 ** 6 > start_us and (top_written or ts_after != ts_before):
+            ts_model = start_s
             self.violation({'check': 'timestamp_later_than_scan_start'},
                            f'timestamp_later_than_scan_start: {what}: {mode} started scanning at fake instant '
-                           f'{start_us / 1e6:.6f} (UTC epoch) but the Manifest now carries TIMESTAMP {ts_after} '
-                           f'({ts_after - start_us / 1e6:+.1f} s), TZ={TZS[self.cfg["tz"]][0]}')
+                           f'{start_us / 1e6:.6f} (UTC epoch) but the Manifest it wrote carries TIMESTAMP {ts_after} '
+                           f'({ts_after - start_us / 1e6:+.1f} s; previous TIMESTAMP {ts_before}), '
+                           f'TZ={TZS[self.cfg["tz"]][0]}')
+        elif ts_after * 10 ** 6 > start_us:
+            # nothing to record, top-level Manifest not written: the old (future) TIMESTAMP stays
+            self.stats.counters['future_timestamp_kept_by_update_that_did_not_write'] += 1
         elif ts_after not in (ts_before, start_us // 10 ** 6):
             self.stats.counters['clock_seam_mismatch'] += 1
             if len(self.stats.notes) < 4:
@@ -435,6 +513,8 @@ class Run:
         else:
             self.stats.counters['timestamp_refreshed' if ts_after == start_us // 10 ** 6
                                 else 'timestamp_kept'] += 1
+        self.last = {'top_written': top_written, 'stepback': stepback, 'ts_before': ts_before,
+                     'ts_after': ts_after, 'ts_model': ts_model}
         return True, r
 
 
@@ -450,11 +530,49 @@ def new_content(old, op, slot, seed):
     raise ValueError(op)
 
 
+def sub_manifest(d, cfg):
+    return os.path.join(d, slot_dir(cfg['seed']), 'Manifest')
+
+
+def mani_applicable(op, data):
+    """data: current bytes of the sub-Manifest.  Appends need a newline-terminated (or empty) file and are
+    made once (no duplicate entries); the same-size edit needs the DIST line with a hex digit at its end."""
+    lines = data.splitlines(True)
+    dist = [ln for ln in lines if ln.startswith(DIST_PREFIX)]
+    if op == 'mani_edit_dist':
+        return len(dist) == 1 and dist[0].endswith(b'\n') and dist[0][-2:-1] in (b'0', b'1')
+    if data and not data.endswith(b'\n'):
+        return False
+    if op == 'mani_append_dist':
+        return not dist
+    return IGNORE_LINE not in lines
+
+
 def apply_op(d, cfg, choice, ts_prev):
     """Apply one operation to replica directory d.  -> mtime ns given (or None)"""
     op, slot, mc = choice
-    p = os.path.join(d, slot_paths(cfg['seed'])[slot])
     ns = None if mc is None else ts_prev * 10 ** 9 + MC_NS[mc]
+    if op in MANI_OPS:
+        p = sub_manifest(d, cfg)
+        with open(p, 'rb') as f:
+            old = f.read()
+        if not mani_applicable(op, old):
+            raise HarnessError(f'{op} is not applicable to {old!r}')
+        if op == 'mani_append_dist':
+            new = old + DIST_LINE
+        elif op == 'mani_append_ignore':
+            new = old + IGNORE_LINE
+        else:
+            lines = old.splitlines(True)
+            i = [n for n, ln in enumerate(lines) if ln.startswith(DIST_PREFIX)][0]
+            body = lines[i].rstrip(b'\n')
+            lines[i] = body[:-1] + (b'1' if body[-1:] == b'0' else b'0') + b'\n'
+            new = b''.join(lines)
+            if len(new) != len(old) or new == old:
+                raise HarnessError('mani_edit_dist is not a same-size modification')
+        write_file(p, new, ns)
+        return ns
+    p = os.path.join(d, slot_paths(cfg['seed'])[slot])
     if op == 'delete':
         os.unlink(p)
         return None
@@ -491,11 +609,19 @@ def choices(d, cfg):
         else:
             for mc in MCLASSES:
                 out.append(('add', s, mc))
+    if cfg['layout'] == 'nested' and os.path.isfile(sub_manifest(d, cfg)):
+        with open(sub_manifest(d, cfg), 'rb') as f:
+            data = f.read()
+        for op in MANI_OPS:
+            if mani_applicable(op, data):
+                for mc in MCLASSES:
+                    out.append((op, None, mc))
     return out
 
 
-def initial_choices():
-    """choices() on the initial history tree (slots 0 and 1 exist, non-empty; slot 2 absent)."""
+def initial_choices(layout):
+    """choices() on the initial history tree (slots 0 and 1 exist, non-empty; slot 2 absent; nested: the
+    sub-Manifest carries neither of the lines that the harness appends)."""
     out = []
     for s in (0, 1):
         for op in EXISTING_OPS:
@@ -504,6 +630,10 @@ def initial_choices():
         out.append(('delete', s, None))
     for mc in MCLASSES:
         out.append(('add', 2, mc))
+    if layout == 'nested':
+        for op in MANI_APPEND_OPS:
+            for mc in MCLASSES:
+                out.append((op, None, mc))
     return out
 
 
@@ -513,6 +643,9 @@ def verdict_for(choice):
     later = mc in ('frac', 'newer')
     if op == 'modify_same_size' and not later:
         return 'dontcare', 'same-size modification with mtime not later than the previous TIMESTAMP (premise false)'
+    if op == 'mani_edit_dist' and not later:
+        return 'dontcare', ('same-size modification of the sub-Manifest file with mtime not later than the previous '
+                            'TIMESTAMP (premise false)')
     if op == 'add' and not later:
         return 'dontcare', ('added file with mtime not later than the previous TIMESTAMP: arguable whether an '
                             'added file is a "modified file" of the premise')
@@ -530,27 +663,54 @@ def play_round(run, A, B, choice, rnd, history):
     cfg, stats = run.cfg, run.stats
     op, slot, mc = choice
     run.rnd = rnd
-    start_us = (T0 + STEP * rnd) * 10 ** 6 + cfg['frac']
-    ts_prev = parsed(read_manifests(A))[1]
-    apply_op(A, cfg, choice, ts_prev)
+    h = run.h
+    start_s = round_start_s(cfg['clock'], rnd)
+    start_us = start_s * 10 ** 6 + cfg['frac']
+    _e0, ts_actual, _raw0, stale0 = parsed(read_manifests(A))
+    if stale0:
+        stats.counters['round_started_with_stale_manifest_entry_in_A'] += 1
+    ts_prev = h['ts_model']
+    if ts_actual != ts_prev:
+        if not h['diverged']:
+            raise HarnessError(f'model TIMESTAMP {ts_prev} != TIMESTAMP in A {ts_actual} without a reported violation')
+        stats.counters['round_relative_to_model_timestamp_after_timestamp_violation'] += 1
+    ns = apply_op(A, cfg, choice, ts_prev)
     apply_op(B, cfg, choice, ts_prev)
-    what = f'history {history} tz={cfg["tz"]} layout={cfg["layout"]} frac={cfg["frac"]}us round {rnd}'
+    what = (f'history {history} tz={cfg["tz"]} layout={cfg["layout"]} clock={cfg["clock"]} frac={cfg["frac"]}us '
+            f'round {rnd}')
     stats.evaluations += 1
     ok_a, _ra = run.update(A, 'incr', start_us, what)
+    la = run.last
     ok_b, _rb = run.update(B, 'full', start_us, what)
     if not (ok_a and ok_b):
         return False
-    ea, _tsa, rawa = parsed(read_manifests(A))
-    eb, _tsb, rawb = parsed(read_manifests(B))
+    ea, _tsa, rawa, stale_a = parsed(read_manifests(A))
+    eb, _tsb, rawb, stale_b = parsed(read_manifests(B))
+    if stale_b:
+        stats.counters['B_manifest_entry_stale_after_full_update'] += 1     # verify(B) below reports it
     vb, rvb = run.verify(B)
     if not vb:
         run.violation({'check': 'sanity_full_update_result_fails_verify', 'op': op},
                       f'sanity: {what}: replica B does not verify after a full update: {rvb["log"][-2:]}')
     verdict, reason = verdict_for(choice)
-    equal = ea == eb
+    stale_a = [p for p in stale_a if p not in stale_b]      # stale in B as well: not a difference (B fails verify)
+    equal = ea == eb and not stale_a
     stats.counters[f'round:{op}:{mc}'] += 1
     stats.counters[f'tz:{cfg["tz"]}'] += 1
     stats.counters[f'layout:{cfg["layout"]}'] += 1
+    stats.counters[f'clock:{cfg["clock"]}'] += 1
+    if la['stepback']:
+        stats.counters[f'stepback_round:{cfg["clock"]}:round{rnd}:'
+                       + ('top_manifest_written' if la['top_written'] else 'nothing_written')] += 1
+    between = (h['stale'] is not None and start_s < h['stale'] and ns is not None
+               and ts_prev * 10 ** 9 < ns < h['stale'] * 10 ** 9)
+    if between:
+        # a change made after a stepped-back update wrote its TIMESTAMP, but before the future TIMESTAMP that
+        # this update replaced, at a fake instant that is still before that stale TIMESTAMP
+        stats.counters[f'round_with_mtime_between_written_and_stale_timestamp:{verdict}:{op}'] += 1
+    if op in MANI_OPS:
+        stats.counters[f'sub_manifest_edit:{verdict}:'
+                       + ('parent_entry_current_in_A' if not stale_a else 'parent_entry_stale_in_A')] += 1
     if equal and rawa != rawb:
         stats.counters['equal_but_line_order_differs'] += 1
     if verdict == 'must':
@@ -559,9 +719,15 @@ def play_round(run, A, B, choice, rnd, history):
         sig = {'check': 'incremental_differs_from_full', 'op': op, 'mtime_class': sig_class(mc)}
         if not equal:
             stats.outcomes['must/differs'] += 1
-            run.violation(sig, f'incremental_differs_from_full: {what}: {op} on slot {slot} '
-                          f'({slot_paths(cfg["seed"])[slot]!r}) with mtime = previous TIMESTAMP {ts_prev} '
-                          f'{MC_NS[mc] / 1e9:+.1f} s ({mc}), TZ={TZS[cfg["tz"]][0]}: {"; ".join(diff_paths(ea, eb))}')
+            target = (f'the sub-Manifest {os.path.join(slot_dir(cfg["seed"]), "Manifest")!r}' if slot is None
+                      else f'slot {slot} ({slot_paths(cfg["seed"])[slot]!r})')
+            when = '' if mc is None else (f' with mtime = previous TIMESTAMP {ts_prev} {MC_NS[mc] / 1e9:+.1f} s ({mc}'
+                                          + (f'; the Manifest of A carries the stale TIMESTAMP {ts_actual}'
+                                             if ts_actual != ts_prev else '') + ')')
+            diffs = diff_paths(ea, eb) + [f'A: MANIFEST entry for {p} does not match the file (size / {HASH}), '
+                                          f'B: it does' for p in stale_a]
+            run.violation(sig, f'incremental_differs_from_full: {what}: {op} on {target}{when}, '
+                          f'TZ={TZS[cfg["tz"]][0]}: {"; ".join(diffs)}')
         else:
             if snapshot(A) == snapshot(B):
                 # same files, same mtimes, byte-identical Manifests (TIMESTAMP included): gemato verify
@@ -586,9 +752,16 @@ def play_round(run, A, B, choice, rnd, history):
         ok, _r = run.update(A, 'full', start_us, what + ' (re-sync)')
         if not ok:
             return False
-        ea2 = parsed(read_manifests(A))[0]
-        if ea2 != eb:
-            raise HarnessError(f'{what}: a full update on A does not give B\'s Manifests: {diff_paths(ea2, eb)}')
+        la = dict(run.last, stepback=la['stepback'], ts_before=la['ts_before'],
+                  top_written=la['top_written'] or run.last['top_written'])
+        ea2, _ts2, _raw2, stale2 = parsed(read_manifests(A))
+        if ea2 != eb or (stale2 and not stale_b):
+            raise HarnessError(f'{what}: a full update on A does not give B\'s Manifests: {diff_paths(ea2, eb)} '
+                               f'{stale2}')
+    h['ts_model'] = la['ts_model']
+    h['diverged'] = la['ts_model'] != la['ts_after']
+    if la['stepback'] and la['top_written']:
+        h['stale'] = la['ts_before']
     return True
 
 
@@ -606,11 +779,14 @@ def start_history(run, root):
     ma, mb = read_manifests(A), read_manifests(B)
     if ma != mb or (cfg['layout'] == 'nested') != (len(ma) == 2):
         raise HarnessError(f'replicas differ after create or layout not as intended: {sorted(ma)}')
+    run.h = {'ts_model': parsed(ma)[1], 'diverged': False, 'stale': None}
+    if run.h['ts_model'] != T0:
+        raise HarnessError(f'TIMESTAMP after create is {run.h["ts_model"]}')
     return A, B
 
 
 def hist_case(cfg, history):
-    return {'family': 'hist', 'tz': cfg['tz'], 'layout': cfg['layout'], 'frac': cfg['frac'],
+    return {'family': 'hist', 'tz': cfg['tz'], 'layout': cfg['layout'], 'frac': cfg['frac'], 'clock': cfg['clock'],
             'seed': cfg['seed'], 'rounds': [list(c) for c in history]}
 
 
@@ -630,18 +806,20 @@ def explore_hist(cfg, first, depth_max, stats, scratch):
         rnd = len(history) + 1
         chs = choices(A, cfg)
         if rnd == 1:
-            if chs != initial_choices():
+            if chs != initial_choices(cfg['layout']):
                 raise HarnessError('initial choices differ from the static list')
             chs = [chs[first]]
-        snap = (snapshot(A), snapshot(B))
+        snap = (snapshot(A), snapshot(B), dict(run.h))
         for ch in chs:
             restore(A, snap[0])
             restore(B, snap[1])
+            run.h = dict(snap[2])
             h = history + [ch]
             run.case = hist_case(cfg, h)
             n0 = stats.compared
             cont = play_round(run, A, B, ch, rnd, h)
-            stats.case(('hist', cfg['tz'], cfg['layout'], cfg['frac'], tuple(h)), nontrivial=stats.compared > n0)
+            stats.case(('hist', cfg['tz'], cfg['layout'], cfg['clock'], cfg['frac'], tuple(h)),
+                       nontrivial=stats.compared > n0)
             if len(stats.samples) < 1 and rnd == 2 and first == 0 and cfg['layout'] == 'nested':
                 stats.sample({'family': 'hist', 'config': cfg, 'history': h})
             for v in run.vio:
@@ -653,7 +831,8 @@ def explore_hist(cfg, first, depth_max, stats, scratch):
 
 
 def replay_hist(case, scratch):
-    cfg = {'tz': case['tz'], 'layout': case['layout'], 'frac': case['frac'], 'seed': case['seed']}
+    cfg = {'tz': case['tz'], 'layout': case['layout'], 'frac': case['frac'], 'seed': case['seed'],
+           'clock': case.get('clock', 'mono')}
     run = Run(cfg, None)
     run.case = case
     with harness_env(cfg['tz']):
@@ -798,7 +977,7 @@ def explore_inflight(cfg, mode, stats, scratch):
 
 
 def replay_inflight(case, scratch):
-    cfg = {'tz': case['tz'], 'layout': case['layout'], 'frac': case['frac'], 'seed': case['seed']}
+    cfg = {'tz': case['tz'], 'layout': case['layout'], 'frac': case['frac'], 'seed': case['seed'], 'clock': 'mono'}
     run = Run(cfg, None)
     run.case = case
     with harness_env(cfg['tz']):
@@ -823,12 +1002,11 @@ def depth_for(tier, frac):
 
 def shards(tier, seed):
     out = []
-    n_first = len(initial_choices())
-    for frac in FRACS:
+    for clock, frac in CLOCK_FRACS:
         for tz in TZS:
             for layout in LAYOUTS:
-                for first in range(n_first):
-                    out.append(('hist', tz, layout, frac, first))
+                for first in range(len(initial_choices(layout))):
+                    out.append(('hist', tz, layout, frac, first, clock))
     for tz in TZS:
         for layout in LAYOUTS:
             for frac in FRACS:
@@ -838,11 +1016,12 @@ def shards(tier, seed):
     def cost(s):          # rough number of gemato runs; longest first keeps the workers busy
         if s[0] == 'inflight':
             return 1000
-        return 120 if depth_for(tier, s[3]) == 2 else 4500
+        n = len(initial_choices(s[2]))
+        return 3 * n if depth_for(tier, s[3]) == 2 else 3 * n * n
     out.sort(key=lambda s: -cost(s))
     # one cheap shard whose first node is the smallest history that can show a time-zone dependence goes
     # first, so that the example kept for a signature tends to be a one-round history
-    w = ('hist', 'west', 'flat', 0, initial_choices().index(('modify_same_size', 0, 'newer')))
+    w = ('hist', 'west', 'flat', 0, initial_choices('flat').index(('modify_same_size', 0, 'newer')), 'mono')
     out.remove(w)
     return [w] + out
 
@@ -850,7 +1029,7 @@ def shards(tier, seed):
 def run_shard(spec, tier, seed, scratch):
     stats = Stats()
     fam, tz, layout, frac = spec[:4]
-    cfg = {'tz': tz, 'layout': layout, 'frac': frac, 'seed': seed}
+    cfg = {'tz': tz, 'layout': layout, 'frac': frac, 'seed': seed, 'clock': spec[5] if fam == 'hist' else 'mono'}
     off0 = time.localtime(T0).tm_gmtoff
     with harness_env(tz):
         if fam == 'hist':
@@ -871,8 +1050,43 @@ def finish(total, tier):
                 errs.append(f'vacuity: no round with {op} x {mc}')
     if not c.get('round:delete:None'):
         errs.append('vacuity: no delete round')
+    for op in MANI_OPS:
+        for mc in MCLASSES:
+            if not c.get(f'round:{op}:{mc}'):
+                errs.append(f'vacuity: no round with {op} x {mc}')
+    # the sub-Manifest edits must be judged: MUST rounds (counted by what replica A's parent entry looked like
+    # afterwards; every edit changes the bytes of the file, so the entry from before the round cannot match)
+    if not (c.get('sub_manifest_edit:must:parent_entry_current_in_A')
+            or c.get('sub_manifest_edit:must:parent_entry_stale_in_A')):
+        errs.append('vacuity: no MUST round with a sub-Manifest edit')
+    if c.get('round_started_with_stale_manifest_entry_in_A'):
+        errs.append(f'{c["round_started_with_stale_manifest_entry_in_A"]} rounds started with a MANIFEST entry in '
+                    'replica A that did not match the sub-Manifest (the re-synchronisation did not work)')
+    for clock in CLOCKS:
+        if not c.get(f'clock:{clock}'):
+            errs.append(f'vacuity: clock schedule {clock} not exercised')
+    # stepped-back rounds: with and without a rewrite of the top-level Manifest, for the step before round 1 and
+    # the step between two updates
+    for clock, rnd in (('back1', 1), ('back2', 2)):
+        for w in ('top_manifest_written', 'nothing_written'):
+            if not c.get(f'stepback_round:{clock}:round{rnd}:{w}'):
+                errs.append(f'vacuity: no stepped-back round ({clock}, round {rnd}) with {w}')
+    for k in c:
+        if k.startswith('stepback_round:mono:'):
+            errs.append(f'clock schedule mono had a round before the previous TIMESTAMP: {k}')
+    # the continuation after a stepped-back update: same-size modifications dated after the TIMESTAMP that update
+    # wrote and before the future TIMESTAMP it replaced, judged MUST (files and, nested, the sub-Manifest)
+    for op in ('modify_same_size', 'mani_edit_dist'):
+        if not c.get(f'round_with_mtime_between_written_and_stale_timestamp:must:{op}'):
+            errs.append(f'vacuity: no MUST round with {op} dated between the TIMESTAMP written by a stepped-back '
+                        'update and the stale future TIMESTAMP')
+    if c.get('round_relative_to_model_timestamp_after_timestamp_violation') and not any(
+            v['sig'].get('check') == 'timestamp_later_than_scan_start' for v in total.violations):
+        errs.append('model TIMESTAMP used without a timestamp_later_than_scan_start violation')
     for k in ('pre_true', 'pre_false', 'inflight_pre_true', 'inflight_pre_false',
               'timestamp_refreshed', 'timestamp_kept', 'resync_full_update_on_A',
+              'update_with_clock_before_previous_timestamp:top_manifest_written',
+              'future_timestamp_kept_by_update_that_did_not_write',
               'inflight_running_update_refreshed_timestamp', 'inflight_running_update_kept_timestamp',
               'cli_calls_through_main', 'cli_calls_with_hoisted_parser'):
         if not c.get(k):
